@@ -83,6 +83,9 @@ def run(tier, seed):
     # (`_debug_` only gates diagnostic printing; its survival across reset() is C09's known finding, it cannot change an event)
     generator_reset_complete(rep, prog, ignore=('_debug_',))
     rep.floor('RESET.complete', ev + pt + bp, 30)
+    # a lazily filled cache member must not survive a change of its sources (an earlier getter/dump call would change later events)
+    from ..rules import cachemem
+    cachemem.check(rep, prog)
     # 4. use-after-invalidate (a capacity-dependent result)
     nb, adders = inv.check_all(rep, prog, cg, sigs, prog.functions.keys())
     rep.floor('INV.use-after-invalidate', nb, 6)
